@@ -374,7 +374,8 @@ func (p *Parser) parseVar() ast.Node {
 		return nil
 	}
 	if len(idents) > 1 {
-		return ast.NewMultiVar(tok, idents, value, false)
+		// A var statement declares its names, like "a, b := ..."
+		return ast.NewMultiVar(tok, idents, value, true)
 	}
 	return ast.NewVar(tok, idents[0], value)
 }
